@@ -467,6 +467,7 @@ pub fn run(args: &Args) -> Report {
     let shard: u64 = args.get("shard").and_then(|s| s.parse().ok()).unwrap_or(0);
     match engine.as_str() {
         "miri" => {
+            crate::util::MIRI_REAL_KEYS.store(true, std::sync::atomic::Ordering::Relaxed);
             // tiny: 2 threads x 2 ceremonies, schedule varied by the miri seed / shard
             thread_round(&mut rep, args.seed + shard, 5_000_000 + shard, 2, 2, "miri-threads");
         }
